@@ -375,6 +375,7 @@ pub fn closure<S: System>(fresh: &(dyn Fn() -> S + Sync), cfg: &Config) -> Repor
                         }
                         let choices = &level[k];
                         let parent = rebuild(fresh, choices);
+                        r.count("traces", 1);
                         let ops = parent.enabled();
                         for (i, op) in ops.iter().enumerate() {
                             let mut child = match parent.try_clone() {
